@@ -192,7 +192,9 @@ func c14Join(xs []string, sep string) string {
 
 // render: the canonical observation, from the keeper's *queries*.
 func (h *c14H) render(out string) string {
-	ctx := h.f.Ctx
+	// queries run on a discarded branch of the state, as gRPC queries do (GetPeriodLocksAccumulation
+	// initialises an empty sum-tree on first use, i.e. it writes)
+	ctx, _ := h.f.Ctx.CacheContext()
 	last := h.k.GetLastLockID(ctx)
 	var L []string
 	for id := uint64(1); id <= last; id++ {
@@ -464,7 +466,7 @@ func (h *c14H) sumLocks(s c14Snap, pred func(c14Lock) bool) math.Int {
 
 // monitor: the property's clauses evaluated on the implementation (model independent).
 func (h *c14H) monitor(op c14Op, pre, post c14Snap, err error) {
-	ctx := h.f.Ctx
+	ctx, _ := h.f.Ctx.CacheContext() // discarded: see render
 	isMsg := op.kind != "begin" && op.kind != "end"
 	// --- block processing must not fail
 	if !isMsg && err != nil {
@@ -864,7 +866,10 @@ func (g *c14Gen) coinArg(l c14Lock) (string, string) {
 	case 9:
 		return fmt.Sprintf("%d %d", l.denom, amt+1), "more-than-locked"
 	case 10:
-		return fmt.Sprintf("%d %d", (l.denom+1)%g.h.nD, 1), "other-denom"
+		if g.h.nD > 1 {
+			return fmt.Sprintf("%d %d", (l.denom+1)%g.h.nD, 1), "other-denom"
+		}
+		return fmt.Sprintf("%d %d", l.denom+1, 1), "unknown-denom"
 	default:
 		return fmt.Sprintf("%d 0", l.denom), "zero-amount"
 	}
@@ -1105,7 +1110,7 @@ func TestC14(t *testing.T) {
 		h.finishTrace()
 		return
 	}
-	nTraces := r.N(40, 500)
+	nTraces := r.N(300, 3600)
 	for i := 0; i < nTraces; i++ {
 		g := &c14Gen{h: h, rng: r.Rng.Fork()}
 		g.trace(40 + g.rng.Intn(60))
